@@ -49,7 +49,7 @@ def required_counters(tier):
         "moment.before_decoration": 20,
         "moment.between": 20,
         "moment.inside_running_call": 20,
-        "no_type_check.above": 10,
+        "no_type_check.above": 10, "no_type_check.same_function_wrapped_again": 10,
         "no_type_check.below": 10, "no_type_check.after_first_call": 10, "threads.switch_seen_in_other_thread": 10, "update.item_name_case": 30, "disabled.calls.non_binding": 50,
         "kind.dataclass": 10,
         "kind.property": 10,
@@ -510,6 +510,25 @@ def arm_config_update(rec, rng):
             kinds = {k: v for k, v in kinds.items() if k in ("function", "method")}
             rec.count("no_type_check." + mark)
             compare_disabled(rec, f"no_type_check:{mark}", kinds, base)
+            if mark == "above":
+                # (4b) the SAME function object is wrapped again elsewhere in the process (a second, checking wrapper),
+                # that wrapper dies, many short-lived wrappers come and go: the switched-off one stays switched off
+                import gc
+
+                fplain, fdeco = kinds["function"]
+                strict = jaxtyped(typechecker=checker)(fplain)
+                rec.count("no_type_check.same_function_wrapped_again")
+                compare_disabled(rec, "no_type_check:above+second-wrapper-alive", {"function": (fplain, fdeco)}, base)
+                check_enabled_rejects(rec, "no_type_check:second-wrapper", {"function": (fplain, strict)}, base)
+                del strict
+                gc.collect()
+                compare_disabled(rec, "no_type_check:above+second-wrapper-collected", {"function": (fplain, fdeco)}, base)
+                for _ in range(30):
+                    tmp = jaxtyped(typechecker=checker)(fplain)
+                    outcome(tmp, *INPUTS["well"]())
+                del tmp
+                gc.collect()
+                compare_disabled(rec, "no_type_check:above+after-temporary-wrappers", {"function": (fplain, fdeco)}, base)
     assert config.jaxtyping_disable is False
 
 
